@@ -44,6 +44,31 @@ def brief(line):
 import time
 
 
+def model_checks(d, tier, which):
+    """Exhaustive TLC checks of the protocol models: HotStuffAbs (abstract, view-ordered; negative control = a model without
+    the lock must be refuted) and MC_HotStuff (the replica model of HotStuff.tla composed with a lossy network and view timers;
+    non-vacuity = a commit must be reachable).  A violation in a model alone is not a verdict about the code (exit 2)."""
+    plan = []
+    for tag in ("", "_simple"):
+        plan.append(("HotStuffAbs", "HotStuffAbs%s_%s.cfg" % (tag, "q" if tier == "quick" else "t"), "ok", None))
+        plan.append(("MC_HotStuff", "MC_HotStuff%s_%s.cfg" % (tag, "q" if tier == "quick" else "t"), "ok", None))
+        if tier != "quick":
+            plan.append(("HotStuffAbs", "HotStuffAbs%s_p3.cfg" % tag, "ok", None))
+        plan.append(("MC_HotStuff", "MC_HotStuff%s_live.cfg" % tag, "violation", "NobodyCommits"))
+    plan.append(("HotStuffAbs", "HotStuffAbs_neg.cfg", "violation", "Agreement"))
+    plan.append(("HotStuffAbs", "HotStuffAbs_neg_revote.cfg", "violation", "OneVotePerView"))
+    if tier != "quick":
+        plan.append(("HotStuffAbs", "HotStuffAbs_simple_neg.cfg", "violation", "Agreement"))
+    out = []
+    for module, cfg, want, inv in plan:
+        r = vlib.tlc(module, cfg=cfg, cwd=d, workers=12, timeout=3000, heap="24g", stack="512m")
+        if r.status != want or (inv and r.violated != inv):
+            raise vlib.InfraError("model check %s/%s: expected %s%s, got %s %s\n%s" % (module, cfg, want, " of " + inv if inv else "", r.status, r.violated, r.out[-1500:]))
+        out.append({"module": module, "cfg": cfg, "result": "holds" if want == "ok" else "refuted as required (%s)" % inv,
+                    "generated": r.generated, "distinct": r.distinct, "wall_s": round(r.wall, 1)})
+    return out
+
+
 def conformance(d, rows, max_rounds=6):
     """Pass B: replay the runs without Byzantine action through the replica model (spec/HotStuff.tla via Trace_R.tla).
     Returns coverage fields; drift is a warning, never a verdict."""
@@ -118,12 +143,15 @@ def play_scripts(d, seed, max_scripts):
                   "script_conformance_drift_count": len(drift)}
 
 
-def run_property(prop, tier, seed, driver_args, rule, extra_cov=None, assumptions=None, scripts=0, more=()):
+def run_property(prop, tier, seed, driver_args, rule, extra_cov=None, assumptions=None, scripts=0, more=(), models=False):
     """Common body of C01/C03/C05/C06/C07."""
     t0 = time.time()
     v = vlib.Verdict(prop)
     script_cov = {}
+    mc = []
     with vlib.scratch(prop) as d:
+        if models:
+            mc = model_checks(d, tier, prop)
         tr = os.path.join(d, "trace.ndjson")
         vlib.run_harness(["proto", "-out", tr, "-seed", seed] + driver_args, timeout=3000)
         rows = vlib.read_ndjson(tr)
@@ -191,6 +219,10 @@ def run_property(prop, tier, seed, driver_args, rule, extra_cov=None, assumption
     }
     cov.update(script_cov)
     cov.update(conf_cov)
+    if mc:
+        cov["model_checks"] = mc
+        cov["states"] = states + sum(x["distinct"] for x in mc)
+        cov["transitions"] = states + sum(x["generated"] for x in mc)
     if conf_cov["conformance_drift_runs"]:
         print("[%s] WARNING: %d run(s) deviate from the replica model spec/HotStuff.tla (conformance drift, not a verdict); first: %s" % (
             prop, conf_cov["conformance_drift_runs"], json.dumps(conf_cov["conformance_drift"][0])[:700]))
